@@ -285,6 +285,7 @@ package stringlib
 //@   arith bv
 //@   norte
 //@   nocover
+//@   requires u != nil
 //@   modifies everything()
 //@   exits any
 //@   assert_before_call align: $n == u.optSize
@@ -330,9 +331,12 @@ package stringlib
 
 // readStr: the announced length is checked against what is left of the packed
 // string before it is allocated (no negative or oversized make).
+// (the read position never goes negative: it only advances; assumed as a type invariant)
+//@ typeinv unpacker: 0 <= self.j && len(self.pack) <= 140737488355328
+
 //@ func (*unpacker).readStr
 //@   prop C04
 //@   arith int
-//@   requires u != nil && 0 <= u.j && u.j <= len(u.pack) && len(u.pack) <= 140737488355328   // (2^47: the amd64 user address space)
+//@   requires u != nil
 //@   modifies everything()
 //@   exits ContextTerminationError
